@@ -105,6 +105,8 @@ def judgeProxy (st : ProxySt) (fields : List String) : ProxySt × String :=
             -- … followed by the parameters configured for THIS location and nothing else
             ++ (if !st.l.query.isEmpty ∧ sq ≠ (if rawq.isEmpty then st.l.query else rawq ++ "&".toList ++ st.l.query) then " TRIP upstream_saw_diff:query:added" else "")
             ++ (if xs = "fetching".toList ∧ stripped.any (fun k => !(sh.values k).isEmpty ∧ !(st.l.reqHeaders.any (·.1 = k))) then " TRIP conditional_leaked" else "")
+            -- the Accept-Encoding the origin sees is the one configured for THIS upstream, or else the client's own
+            ++ (if (if st.upAE.isEmpty then sh.values hAcceptEncoding ≠ h.values hAcceptEncoding ∧ aeClient else sh.values hAcceptEncoding ≠ [st.upAE]) then " TRIP upstream_saw_diff:header:accept-encoding" else "")
             ++ (if keys.any (fun k => !stripped.contains k ∧ k ≠ hAcceptEncoding ∧ !(st.l.reqHeaders.any (·.1 = k)) ∧ sh.values k ≠ h.values k) then " TRIP upstream_saw_diff:header" else "")
         let monResp : String :=
           (if second ∧ isGetHead ∧ (code ≠ 200 ∨ rbody ≠ "0123456789abcdefghijklmnopqrstuvwxyz".toList) then " TRIP partial_replayed" else "")
